@@ -46,7 +46,7 @@ PROPS = {
           note='alloc::fmt::format stubbed (debug-only string on the growth path)'),
     ]),
     'C08': dict(units=['core_all', 'hk', 'events', 'drain', 'conns'], level='proof'),
-    'C12': dict(units=['core_all', 'events', 'drain'], level='proof'),
+    'C12': dict(units=['core_all', 'events', 'drain', 'route'], level='proof'),
     'C13': dict(units=['core_all', 'events'], level='proof', kani=[
         K('effective_stall_window_formula', 'C13.kani.effective_window_is_clamp_4srtt_1000_ceiling_and_pull_window_below_it'),
     ]),
@@ -57,10 +57,12 @@ PROPS = {
     ]),
     'C07': dict(units=['core_all', 'reg', 'events', 'hk'], level='proof',
                 kani=[K('reg_packets_layout', 'C07.kani.reg_packets_carry_type_and_id')]),
-    'C16': dict(units=['ccglue'], level='proof',
-                not_covered=['exact factors x0.85 (back-off), x0.75 (drain entry) and the 6 % per-tick growth bound: float multiplier reasoning, the three Kani harnesses (kx/src/cc.rs: cc_tick_backoff_085, cc_tick_drain_075, cc_tick_growth_at_most_6_percent) did not terminate in 40 min and are NOT run'],
+    'C16': dict(units=['ccglue', 'cc'], level='proof',
+                not_covered=['the IEEE-level reading of the exact factors (that prev*850/1000 is 0.85 x prev up to rounding, *750/1000, step <= 6 %): float multiplier reasoning, the three Kani harnesses (kx/src/cc.rs: cc_tick_backoff_085, cc_tick_drain_075, cc_tick_growth_at_most_6_percent) did not terminate in 40 min and are NOT run; the STRUCTURE (these constants, these operations, these operands) is proved by Verus in unit cc',
+                             'the seeding rule is specified as the code has it (the recorded known finding is reported by the Kani obligation, not by unit cc)'],
                 kani=[
         K('cc_tick_range_and_wf', 'C16.kani.tick.target_in_range_and_floor_until_rtt_sample'),
+        K('cc_default_state_is_well_formed', 'C16.kani.default.a_fresh_controller_satisfies_the_representation_invariant'),
         K('cc_tick_lowered_only_by_backoff_or_drain_entry', 'C16.kani.tick.lowered_only_by_backoff_or_drain_entry'),
         K('cc_loss_latch_hysteresis', 'C16.kani.loss_latch.enter_055_for_4s_clear_below_025'),
         K('cc_tick_backoff_never_raises_never_below_delivered', 'C16.kani.tick.backoff_never_raises_and_never_cuts_below_the_delivered_rate'),
